@@ -18,7 +18,8 @@ RULE = ("generated bodies E (C04 grammar with ^/^^ under map/filter/sort_by/pipe
         "define, --set variable, --set macro, select position 1..4, after --split-by} evaluated as paired columns on 1-8 generated inputs; "
         "distinct_nontrivial = distinct (binding form, uses-parent-under-binding, body text) with the value present for at least one input")
 
-FORMS = ("set", "define", "preset-var", "preset-macro", "position", "position-split", "pipe-parent", "macro-late-var", "recursive-macro")
+FORMS = ("set", "define", "preset-var", "preset-macro", "position", "position-split", "pipe-parent", "macro-late-var", "recursive-macro", "set-twin",
+         "computed-name")
 # terminating self-referential macro bodies (tree and linear recursion) that read the enclosing input or a variable bound on the way down
 RECURSIVE = [
     ("f", '(? (<= . 1) ^ (+ (| (- . 1) @f) (| (- . 2) @f)))', "(| .i @f)"),
@@ -95,6 +96,7 @@ def sparse_record(rng):
 def gen_unit(rng):
     form = rng.choice(FORMS)
     g = eg.Gen(rng, ill_typed=0.05, maxdepth=3, allow_parse_selection=False)
+    g.computed_names = False
     if rng.random() < 0.03:
         # a long run over sparse records: bindings that mostly yield nothing, hundreds of times, before the ones that count
         # (anything a binding form accumulates per run shows up only here)
@@ -111,6 +113,33 @@ def gen_unit(rng):
         for _ in range(k):
             stages.append(rng.choice(IDENTITY_LIKE) if rng.random() < 0.7 else eg.show(g.gen(rng.choice(("num", "str", "any", "arr:num")), eg.Scope(allow_sel=False).push("any"))))
         u["a"], u["stages"] = a, stages
+        return u
+    if form == "computed-name":
+        # (: E) / (get_variable E) with a name that is computed from the record (with a fallback that is a valid name, too):
+        # the variable meant is the one whose name E yields for THIS record
+        a, b = rng.sample(["v", "w", "acc", "x1"], 2)
+        Va, Vb = rng.choice((10, "A", [1])), rng.choice((20, "B", {"k": 2}))
+        name = "(default .which %s)" % jm.dumps(a)
+        fn = rng.choice((":", "get_variable"))
+        bound = "(set %s %s (set %s %s (%s %s)))" % (jm.dumps(a), jm.dumps(Va), jm.dumps(b), jm.dumps(Vb), fn, name)
+        sub = "(? (= %s %s) %s (? (= %s %s) %s .nosuchfield))" % (name, jm.dumps(b), jm.dumps(Vb), name, jm.dumps(a), jm.dumps(Va))
+        u["pairs"].append((bound, sub, False))
+        if rng.random() < 0.5:
+            u["pairs"].append(("(map (push [] 1 2) %s)" % bound.replace(".which", "^.which"), "(map (push [] 1 2) %s)" % sub.replace(".which", "^.which"), True))
+        return u
+    if form == "set-twin":
+        # a variable re-bound to a value that jawk's equality cannot tell from the old one although it is not the same
+        # (members in another order, 2^64-1 vs 2^64): the inner binding is the one in force
+        V = rng.choice(({"a": 1, "b": 2}, {"x": {"p": 1, "q": [1, 2]}, "y": 2, "z": None}, [{"k": 1, "l": 2}], [2 ** 64 - 1, {"u": 1, "v": 2}], 2 ** 64 - 1))
+        W = jm.twin(V)
+        body = rng.choice(("(stringify :n)", "(keys :n)", ":n", "(push [] :n 1)", "(first (entries :n))", "(map (push [] 1 2) (stringify :n))"))
+        lit = lambda v: jm.dumps(v)
+        outer = rng.choice((None, "preset"))
+        bound = "(set \"n\" %s (set \"n\" %s %s))" % (lit(V), lit(W), body)
+        if outer == "preset":
+            u["pre"] = ["--set", "n=" + lit(V)]
+            bound = "(set \"n\" %s %s)" % (lit(W), body)
+        u["pairs"].append((bound, body.replace(":n", lit(W)), False))
         return u
     if form == "recursive-macro":
         name, body, use = rng.choice(RECURSIVE)
